@@ -55,9 +55,6 @@ struct in_p2 {
 	unsigned short i_mode;
 	/* check_dotdot */
 	unsigned char dirinfo_fail;
-	/* encoded_check_name: answer of the NLS validator */
-	int enc_ret;
-	unsigned int enc_pos;
 	/* check_name detection: position of an illegal character (the witness of "name is illegal") */
 	unsigned int j;
 };
